@@ -63,3 +63,10 @@ Example C09_history_keyless_cache_interferes :
   let r2 := strop_shared_noself py_uni py_isspace enc (Some 8%nat) (fst r1) 1 ty_any [105; 102] in
   snd r2 = Ok [95; 105; 102] /\ strop py_uni py_isspace (enc 1%nat) ty_any [105; 102] <> Ok [95; 105; 102].
 Proof. vm_compute. split; [reflexivity|discriminate]. Qed.
+
+(* 3. Until round 6 the clause-3 theorem for cpp used a notion of "unreserved" that ignored C++ [lex.name] 3.1 (identifiers
+      containing `__`); against that over-narrow predicate the clause is refuted by `__x`.  The live theorem
+      (Properties/C09.v strop_id_cpp_ascii) uses clean_ascii. *)
+Theorem C09_history_cpp_identity_narrow_predicate :
+  exists ty t, str_eqb (lower ty) ty_all = false /\ clean_lang LCpp ty t = true /\ strop_cpp ty t <> Ok t.
+Proof. exact strop_id_cpp_refuted_thm. Qed.
